@@ -1,5 +1,5 @@
 //! C01: totality through the public entry point on boundary-constant programs (never a panic).
-use crate::{boundary_words, c08::{analyze, Out}, witness, Rng};
+use crate::{boundary_words, c08::{analyze, Out}, scale, witness, Rng};
 
 fn push32(w: ethnum::U256) -> Vec<u8> { let mut v = vec![0x7f]; v.extend(w.to_be_bytes()); v }
 
@@ -12,7 +12,7 @@ fn c01_boundary_constant_programs_do_not_panic() {
     let mut cases = 0u64;
     let mut rng = Rng::seeded(1);
     for &op in &binops {
-        for _ in 0..12 {
+        for _ in 0..3 * scale() {
             let a = bw[rng.below(bw.len() as u64) as usize];
             let b = bw[rng.below(bw.len() as u64) as usize];
             // PUSH b PUSH a OP ; then use the result as a storage key so that later stages see it
@@ -31,7 +31,7 @@ fn c01_boundary_constant_programs_do_not_panic() {
     }
     // three-operand copies and hashing with boundary offsets/sizes: CALLDATACOPY CODECOPY RETURNDATACOPY, SHA3 result stored
     for &op in &[0x37u8, 0x39, 0x3e] {
-        for _ in 0..12 {
+        for _ in 0..3 * scale() {
             let (a, b, c) = (bw[rng.below(bw.len() as u64) as usize], bw[rng.below(bw.len() as u64) as usize], bw[rng.below(bw.len() as u64) as usize]);
             let mut code = push32(c);
             code.extend(push32(b));
